@@ -3,7 +3,7 @@
 # behaviour differs observably, no property is violated) to /repo, run all 20 checks, undo.
 # Every line must read "== Cnn exit=0".  Not a registered check; writes no committed evidence.
 cd /verif
-for d in benign/B*/; do
+for d in benign/*/; do
   k=$(basename $d)
   echo "#### $k"
   tools/try-seed.sh /verif/benign/$k/patch.diff C01 C02 C03 C04 C05 C06 C07 C08 C09 C10 C11 C12 C13 C14 C15 C16 C17 C18 C19 C20 | grep -E '^== |VIOLATION|HARNESS'
